@@ -53,7 +53,9 @@ impl<'a> ProgGen<'a> {
                         4..=6 => Op::Set(t, v),
                         7 => Op::Remove(t),
                         8 => Op::SetBest(Some(*self.g.pick(&[0.0, 0.25, 0.5, 1.0, 2.0, 3.0, 7.5]))),
-                        _ if self.g.chance(0.5) => Op::SetBest(if self.g.chance(0.5) { None } else { Some(f64::INFINITY) }),
+                        _ if self.g.chance(0.4) => Op::SetBest(if self.g.chance(0.5) { None } else { Some(f64::INFINITY) }),
+                        _ if self.g.chance(0.4) => Op::SetFloat(self.g.pick(&[0.0f64, 0.25, 0.5, 1.0, 2.5, -1.0, f64::NAN, f64::INFINITY]).to_bits()),
+                        _ if self.g.chance(0.3) => Op::SetPopulation(if self.g.chance(0.2) { None } else { Some(*self.g.pick(&[0.0, 0.25, 1.0, 2.0, 3.0])) }),
                         _ => Op::SetBestHere(if self.g.chance(0.6) { None } else { Some(*self.g.pick(&[0.0, 1.0, 3.0])) }),
                     }
                 })
@@ -80,6 +82,7 @@ impl<'a> ProgGen<'a> {
         let k = self.g.below(if depth > 0 { 9 } else { 6 });
         let id = self.id();
         match k {
+            0 if self.g.chance(0.25) => Cond::LessThanF { id, n: *self.g.pick(&[0.5, 1.0, 2.0]) },
             0 => Cond::LessThan { id, t: self.tracked_type(), n: 1 + self.g.below(6) as u32 },
             1 => Cond::EveryN { id, t: self.tracked_type(), n: 1 + self.g.below(4) as u32 },
             2 => Cond::ChangeDelta { id, t: self.tracked_type(), threshold: self.g.below(5) as u32 },
